@@ -27,6 +27,7 @@ props! {
     c15: C15: "C15",
     c16: C16: "C16",
     c17: C17: "C17",
+    c18: C18: "C18",
     c19: C19: "C19",
     c20: C20: "C20",
 }
